@@ -206,9 +206,12 @@ func runC15Acceptance(w *world.World, c caseC15Memo, rec *kit.Recorder) error {
 	}
 	got2, err2, _ := safeParse(p1, c.Memo)
 	got3, err3, _ := safeParse(p2, c.Memo)
-	// a few more parses, so that a dependence on map iteration order shows reliably
-	for i := 0; i < 8 && err1 != nil && err2 != nil && err1.Error() == err2.Error(); i++ {
-		_, err2, _ = safeParse(p1, c.Memo)
+	// more parses, so that a dependence on map iteration order shows reliably
+	for i := 0; i < 24; i++ {
+		if (err1 == nil) != (err2 == nil) || (err1 != nil && err1.Error() != err2.Error()) || (err1 == nil && !payloadEqual(got1, got2)) {
+			break
+		}
+		got2, err2, _ = safeParse(p1, c.Memo)
 	}
 	if (err1 == nil) != (err2 == nil) || (err1 == nil) != (err3 == nil) {
 		return fmt.Errorf("parsing is not a pure function of the memo: %v / %v / %v", err1, err2, err3)
